@@ -204,6 +204,21 @@ CLAIMED['C02'] = dict(
     note=TRUSTED + 'The reference codec is part of the trusted base (about 250 lines, no import from the library); bounds as C01.',
     design='5/C02')
 
+CLAIMED['C15'] = dict(
+    category='model_checking',
+    text='Composition in one symbolic path without threads or sockets: storage_scu -> Association.send -> encode -> P-DATA-TF '
+         'bytes -> PDataTfPDU.decode -> DIMSEDecoder with file-backed reception (real get_file/write_meta) -> storage_scp -> '
+         'handler, and the C-STORE-RSP back to the Status the sender returns. Symbolic: data-set bytes (short prefix + tail over '
+         'several fragments), source file vs in-memory Dataset, asymmetric maximum PDU lengths of the two sides, message id, '
+         'handler outcome (4 status codes or EventHandlingError), transfer syntax. Asserted: the handler reads a DICOM file '
+         'whose data set is exactly the sent bytes under the negotiated syntax with the sent UIDs; the sender gets the '
+         'handler status (0xC000 on EventHandlingError). Directory storage: which of the candidate file names already exist '
+         'and the number of repeated stores are symbolic; every store gets a new name and nothing existing is truncated.',
+    note=TRUSTED + 'NOT covered (outside this technique): real loopback TCP, the two provider threads and OS scheduling - the '
+         'provider loop and framing are covered by C03/C05/C12/C13 on the simulated transport. In-memory file system and '
+         'tempfile stand-ins; data-set contents: 2-3 symbolic bytes, the rest concrete; pydicom encodes the Dataset variant.',
+    design='5/C15')
+
 NOT_YET = 'check not built yet in this revision (see DESIGN.md section 5 for the plan)'
 
 NOT_APPLICABLE = {}
